@@ -11,30 +11,35 @@ include!("img.rs");
 //@ tier: quick
 //@ timeout: 1800
 //@ mem: 14
-//@ unwindset: read_sig=66; read_id=34; read_pubkey=34; read_hex=66; memcmp.0=34
+//@ unwindset: read_sig=66; read_id=34; read_pubkey=34; read_hex=66; memcmp.0=34; copy_text=600; read_u64=22; read_kind=8; burn_string=26; eat_whitespace=6; burn_number=12; patch_site=24; digits=24; fpatch=24; put_bytes=70; enc_tags=6
 //@ encodes: Event::from_json, parse_json_event (every byte of the output image)
-//@ bounds: one valid text (compact order 1 / 573-byte order 2 with whitespace, unknown members and deferred content) parsed into a zeroed buffer and into a buffer with arbitrary prior contents: the two events are byte-identical at every index and compare equal
+//@ bounds: one valid text (compact order 1 / 426-byte order 2 with whitespace, two unknown members and deferred content) parsed into a zeroed buffer and into a buffer with arbitrary prior contents: the two events are byte-identical at every index and compare equal
 //@ outside: other texts
 #[kani::proof]
-#[kani::unwind(32)]
+#[kani::unwind(8)]
 #[kani::stub(core::panic::Location::caller, stub_caller)]
 fn c02_prior_buffer_compact() {
     prior_buffer(L1);
 }
 #[kani::proof]
-#[kani::unwind(32)]
+#[kani::unwind(8)]
 #[kani::stub(core::panic::Location::caller, stub_caller)]
 fn c02_prior_buffer_deferred() {
-    prior_buffer(L2);
+    prior_buffer(L4);
 }
 fn prior_buffer(text: &[u8]) {
     let mut za = [0u8; 200];
     let mut zb: [u8; 200] = kani::any();
     let a = Event::from_json(text, &mut za);
     let b = Event::from_json(text, &mut zb);
-    assert!(a.is_ok() && b.is_ok());
-    let (_, ea) = a.unwrap();
-    let (_, eb) = b.unwrap();
+    let (ea, eb) = match (a, b) {
+        (Ok((_, x)), Ok((_, y))) => (x, y),
+        (p, q) => {
+            core::mem::forget(p);
+            core::mem::forget(q);
+            panic!("valid text rejected")
+        }
+    };
     assert!(ea.len() == eb.len());
     let i: usize = kani::any();
     kani::assume(i < ea.len());
@@ -44,58 +49,46 @@ fn prior_buffer(text: &[u8]) {
 
 //@ harness: c02_layouts_and_parts_agree
 //@ tier: quick
-//@ timeout: 3000
-//@ mem: 20
-//@ unwindset: read_sig=66; read_id=34; read_pubkey=34; read_hex=66; memcmp.0=34
+//@ timeout: 2400
+//@ mem: 16
+//@ unwindset: read_sig=66; read_id=34; read_pubkey=34; read_hex=66; memcmp.0=34; put_bytes=70; copy_text=600; read_u64=22; read_kind=8; burn_string=26; eat_whitespace=6; burn_number=12; patch_site=24; digits=24; fpatch=24; enc_tags=6
 //@ encodes: Event::from_json, Event::from_parts, Event::eq
-//@ bounds: the same parts (symbolic: first+last hex digit of id/pubkey/sig, 5 kind digits <= 65535, 10 created_at digits, one content byte, one tag byte) written as the compact order-1 text and as the 573-byte order-2 text with whitespace/unknown members, parsed into buffers with arbitrary prior contents, and built with Event::from_parts: all three images are byte-identical at every index
-//@ outside: other layouts; escape spellings of the same string (c02_spellings_agree)
+//@ bounds: the same event written as the compact order-1 text and as the 426-byte order-2 text with whitespace, unknown members and deferred content, each parsed into a buffer with arbitrary prior contents, and built with Event::from_parts into a third such buffer: all three images are byte-identical at every index and compare equal
+//@ outside: the texts are concrete (symbolic value bytes are C01's business); other layouts; escape spellings (c02_spellings_agree)
 #[kani::proof]
-#[kani::unwind(32)]
+#[kani::unwind(8)]
 #[kani::stub(core::panic::Location::caller, stub_caller)]
 fn c02_layouts_and_parts_agree() {
-    let mut t1 = *L1;
-    let e = patch_values(&mut t1, L1_ID, L1_PK, L1_SIG, L1_KIND, 5, L1_AT, 10, L1_CONTENT, L1_TAGV);
-    kani::assume(e.kind <= 65535);
-    // copy the same value bytes into the second layout
-    let mut t2 = *L2;
-    t2[L2_ID] = t1[L1_ID];
-    t2[L2_ID + 63] = t1[L1_ID + 63];
-    t2[L2_PK] = t1[L1_PK];
-    t2[L2_PK + 63] = t1[L1_PK + 63];
-    t2[L2_SIG] = t1[L1_SIG];
-    t2[L2_SIG + 127] = t1[L1_SIG + 127];
-    let mut i = 0;
-    while i < 5 {
-        t2[L2_KIND + i] = t1[L1_KIND + i];
-        i += 1;
-    }
-    i = 0;
-    while i < 10 {
-        t2[L2_AT + i] = t1[L1_AT + i];
-        i += 1;
-    }
-    t2[L2_CONTENT] = t1[L1_CONTENT];
-    t2[L2_TAGV] = t1[L1_TAGV];
     let mut o1: [u8; 200] = kani::any();
     let mut o2: [u8; 200] = kani::any();
     let mut o3: [u8; 200] = kani::any();
-    let a = Event::from_json(&t1, &mut o1);
-    let b = Event::from_json(&t2, &mut o2);
-    assert!(a.is_ok() && b.is_ok());
-    let (_, ea) = a.unwrap();
-    let (_, eb) = b.unwrap();
+    let a = Event::from_json(L1, &mut o1);
+    let b = Event::from_json(L4, &mut o2);
+    let (ea, eb) = match (a, b) {
+        (Ok((_, x)), Ok((_, y))) => (x, y),
+        (p, q) => {
+            core::mem::forget(p);
+            core::mem::forget(q);
+            panic!("valid text rejected")
+        }
+    };
     // the same event from parts
-    let pool = [b'e', e.tagv0, b'b', b'p'];
+    let pool = [b'e', b'a', b'b', b'p'];
     let shape: [&[usize]; 3] = [&[1, 2], &[1], &[]];
     let mut tbuf = [0u8; 32];
     let tl = enc_tags(&shape, &pool, &mut tbuf);
-    let tags = unsafe { Tags::delineate(&tbuf[..tl]) }.unwrap();
-    let content = [e.content0, b'i', b'\n'];
-    let c = Event::from_parts(Id::from_bytes(e.id), Kind::from_u16(e.kind as u16), Pubkey::from_bytes(e.pk), Sig::from_bytes(e.sig),
-                              tags, Time::from_u64(e.at as u64), &content, &mut o3);
-    assert!(c.is_ok());
-    let ec = c.unwrap();
+    let ts: &[u8] = &tbuf[..tl];
+    let tags: &Tags = unsafe { &*(ts as *const [u8] as *const Tags) };
+    let content = [b'h', b'i', b'\n'];
+    let c = Event::from_parts(Id::from_bytes(ID_BIN), Kind::from_u16(30023), Pubkey::from_bytes(PK_BIN), Sig::from_bytes(SIG_BIN),
+                              tags, Time::from_u64(1681778790), &content, &mut o3);
+    let ec = match c {
+        Ok(x) => x,
+        Err(e) => {
+            core::mem::forget(e);
+            panic!("from_parts failed")
+        }
+    };
     assert!(ea.len() == eb.len() && ea.len() == ec.len());
     let k: usize = kani::any();
     kani::assume(k < ea.len());
@@ -108,20 +101,25 @@ fn c02_layouts_and_parts_agree() {
 //@ tier: quick
 //@ timeout: 1800
 //@ mem: 14
-//@ unwindset: read_sig=66; read_id=34; read_pubkey=34; read_hex=66; memcmp.0=34
+//@ unwindset: read_sig=66; read_id=34; read_pubkey=34; read_hex=66; memcmp.0=34; copy_text=600; read_u64=22; read_kind=8; burn_string=26; eat_whitespace=6; burn_number=12; patch_site=24; digits=24; fpatch=24; put_bytes=70; enc_tags=6
 //@ encodes: json_unescape, read_content, Event::from_json
 //@ bounds: two compact texts that differ only in how the content string is spelled (every character escaped as \uXXXX or two-character escape vs. written literally), parsed into buffers with arbitrary prior contents: byte-identical
 #[kani::proof]
-#[kani::unwind(32)]
+#[kani::unwind(8)]
 #[kani::stub(core::panic::Location::caller, stub_caller)]
 fn c02_spellings_agree() {
     let mut o1: [u8; 200] = kani::any();
     let mut o2: [u8; 200] = kani::any();
     let a = Event::from_json(SP_A, &mut o1);
     let b = Event::from_json(SP_B, &mut o2);
-    assert!(a.is_ok() && b.is_ok());
-    let (_, ea) = a.unwrap();
-    let (_, eb) = b.unwrap();
+    let (ea, eb) = match (a, b) {
+        (Ok((_, x)), Ok((_, y))) => (x, y),
+        (p, q) => {
+            core::mem::forget(p);
+            core::mem::forget(q);
+            panic!("valid text rejected")
+        }
+    };
     assert!(ea.len() == eb.len());
     let k: usize = kani::any();
     kani::assume(k < ea.len());
@@ -165,12 +163,12 @@ fn ref_escape(c: u8, out: &mut [u8; 6]) -> usize {
 //@ tier: quick
 //@ timeout: 3000
 //@ mem: 20
-//@ unwindset: read_sig=66; read_id=34; read_pubkey=34; read_hex=66; memcmp.0=34; write_hex=66; as_json=70; push=130; c02_as_json=130; extend=140; json_escape=8
+//@ unwindset: read_sig=66; read_id=34; read_pubkey=34; read_hex=66; memcmp.0=34; write_hex=66; as_json=70; push=130; c02_as_json=130; extend=140; json_escape=8; copy_text=600; read_u64=22; read_kind=8; burn_string=26; eat_whitespace=6; burn_number=12; patch_site=24; digits=24; fpatch=24; put_bytes=70; enc_tags=6
 //@ encodes: Event::as_json, Tags::as_json, json_escape, Event::from_json, json_unescape
 //@ bounds: an event held by the library (image from the reference encoder) with tags [["e", s(1)], []] and a 2-byte content; the tag byte and the second content byte are arbitrary ASCII 0x00..=0x7f incl. every control character, quote and backslash, the first content byte is a concrete control character (0x1f), kind 30023, created_at 1681778790: the serialised text equals the reference writer's text byte for byte (canonical NIP-01 escapes), and parsing it back gives a byte-identical event
 //@ outside: non-ASCII strings, symbolic integers (format! of a symbolic u64 is a division kernel that does not finish in budget), longer strings
 #[kani::proof]
-#[kani::unwind(32)]
+#[kani::unwind(8)]
 #[kani::stub(core::panic::Location::caller, stub_caller)]
 fn c02_as_json_roundtrip() {
     let tv: u8 = kani::any();
@@ -181,10 +179,15 @@ fn c02_as_json_roundtrip() {
     let content = [0x1fu8, c1];
     let mut img = [0u8; 200];
     let n = enc_event_img(30023, 1681778790, &ID_BIN, &PK_BIN, &SIG_BIN, &shape, &pool, &content, &mut img);
-    let ev = unsafe { Event::delineate(&img[..n]) }.unwrap();
-    let json = ev.as_json();
-    assert!(json.is_ok());
-    let json = json.unwrap();
+    let is_: &[u8] = &img[..n];
+    let ev: &Event = unsafe { &*(is_ as *const [u8] as *const Event) };
+    let json = match ev.as_json() {
+        Ok(j) => j,
+        Err(e) => {
+            core::mem::forget(e);
+            panic!("as_json failed")
+        }
+    };
     // reference text
     let mut r = [0u8; 420];
     let mut p = 0;
@@ -217,9 +220,13 @@ fn c02_as_json_roundtrip() {
     assert!(json[i] == r[i]);
     // and back
     let mut out: [u8; 200] = kani::any();
-    let back = Event::from_json(&json, &mut out);
-    assert!(back.is_ok());
-    let (consumed, ev2) = back.unwrap();
+    let (consumed, ev2) = match Event::from_json(&json, &mut out) {
+        Ok(x) => x,
+        Err(e) => {
+            core::mem::forget(e);
+            panic!("own JSON rejected")
+        }
+    };
     assert!(consumed == p && ev2.len() == n);
     let k: usize = kani::any();
     kani::assume(k < n);
